@@ -112,6 +112,20 @@ def oracle_roundtrip(types_mod, d):
         return f"decode_data(encode_data(d)) raised {type(e).__name__}: {e}"
     if dec != d:
         return "decode_data(encode_data(d)) != d"
+    # the round trip is a property of the functions, not of the first call: what a caller does with one result
+    # (the web editor mutates the decoded dict) must not change what the same link decodes to afterwards
+    import copy
+    want = copy.deepcopy(d)
+    try:
+        if isinstance(dec, dict):
+            dec["__mutated_by_caller__"] = 1
+        elif isinstance(dec, list):
+            dec.append("__mutated_by_caller__")
+        dec2 = types_mod.decode_data(types_mod.encode_data(d))
+    except Exception as e:
+        return f"second decode_data(encode_data(d)) raised {type(e).__name__}: {e}"
+    if dec2 != want:
+        return "decode_data(encode_data(d)) != d on the second call, after the caller changed the first result"
     return None
 
 
